@@ -544,6 +544,11 @@ theorem call_once {s : St} (hinv : Inv s) (i : Nat) (x : Int) (f : Fn) (hf : abs
   simp only [Spec.step, hf] at h1 h3
   exact ⟨s', h1, h2, h3⟩
 
+example : Inv St.init ∧ abs St.init 0 = none := ⟨inv_init, rfl⟩
+example : ∃ s, step St.init (.ctorFn 0 ⟨3, 5, 0⟩) = .ok (s, .unit, []) ∧ Inv s ∧ abs s 0 = some ⟨3, 5, 0⟩ := by
+  obtain ⟨s', h1, h2, h3⟩ := refines_ok (step_refines inv_init (.ctorFn 0 ⟨3, 5, 0⟩) rfl)
+  exact ⟨s', h1, h2, by rw [h3]; rfl⟩
+
 /-- copying yields two wrappers with equivalent targets; nothing else changes -/
 theorem copy_equivalent {s : St} (hinv : Inv s) (i j : Nat) (conv : Bool) (hij : i ≠ j) :
     ∃ s', step s (.ctorCopy i j conv) = .ok (s', .unit, []) ∧ Inv s' ∧
@@ -552,6 +557,8 @@ theorem copy_equivalent {s : St} (hinv : Inv s) (i j : Nat) (conv : Bool) (hij :
   obtain ⟨s', h1, h2, h3⟩ := refines_ok (step_refines hinv _ hv)
   refine ⟨s', h1, h2, ?_, ?_, ?_⟩ <;> simp [h3, Spec.step, Spec.set, Ne.symm hij]
   intro k hk; simp [hk]
+
+example : Inv St.init ∧ (0 : Nat) ≠ 1 := ⟨inv_init, by decide⟩
 
 /-- moving transfers the target and leaves the source empty -/
 theorem move_transfers {s : St} (hinv : Inv s) (i j : Nat) (conv : Bool) (hij : i ≠ j) :
